@@ -488,20 +488,41 @@ def _idents(P):
     return out
 
 
-def _flat(e, op):
-    out = []
-    for a in e["args"]:
-        out += _flat(a, op) if a["op"] == op else [a]
-    return out
+def _sexprs(text):
+    toks = re.findall(r"\(|\)|[^\s()]+", text)
+    stack = [[]]
+    for t in toks:
+        if t == "(":
+            stack.append([])
+        elif t == ")":
+            if len(stack) > 1:
+                x = stack.pop()
+                stack[-1].append(x)
+        else:
+            stack[-1].append(t)
+    return stack[0]
 
 
-def _rep(e):
-    """a sum / product with two syntactically equal operands (after flattening)"""
-    if e["op"] in ("plus", "times"):
-        ops = [repr(a) for a in _flat(e, e["op"])]
+def _rep_sx(x):
+    if not isinstance(x, list):
+        return False
+    if x and x[0] in ("+", "*"):
+        def flat(y):
+            out = []
+            for a in y[1:]:
+                out += flat(a) if isinstance(a, list) and a and a[0] == y[0] else [repr(a)]
+            return out
+        ops = flat(x)
         if len(ops) != len(set(ops)):
             return True
-    return any(_rep(a) for a in e["args"])
+    return any(_rep_sx(a) for a in x)
+
+
+def _rep_text(text):
+    try:
+        return _rep_sx(_sexprs(text))
+    except Exception:
+        return False
 
 
 def features(P, W=None):
@@ -526,24 +547,16 @@ def features(P, W=None):
         fs.add("name:contingent-keyword")
     if any(te["e"]["c"] != upj.TRUE_E for te in P.get("timed_effects", [])):
         fs.add("conditional-timed-effect")
-    # sums / products with a repeated operand, by place
-    for a in P["actions"]:
-        effs = [te["e"] for te in a["effects"]] if a["kind"] == "dur" else a["effects"]
-        if any(_rep(c) for c in a["pre"]) or any(_rep(c["c"]) for c in a["conds"]) or any(_rep(e["c"]) for e in effs):
-            fs.add("repeated-operand:pre")
-        if any(_rep(e["v"]) for e in effs):
-            fs.add("repeated-operand:eff")
-    if any(_rep(g) for g in P["goals"]):
-        fs.add("repeated-operand:goal")
-    if any(_rep(c["c"]) for c in m["costs"]) or (m["default"]["op"] != "none" and _rep(m["default"])):
-        fs.add("repeated-operand:cost")
-    if m["expr"]["op"] != "none" and _rep(m["expr"]):
-        fs.add("repeated-operand:metric")
     if W is not None:
         if re.search(r"\(:metric (minimize|maximize) -?[0-9.]+\)", W["prob"]):
             fs.add("metric-constant-in-text")
         if re.search(r"\(at [0-9.]+\)", W["prob"]):
             fs.add("empty-timed-effect-in-text")
+        # sums / products with a repeated operand in the written text (the third-party parser drops them)
+        if _rep_text(W["dom"]):
+            fs.add("repeated-operand@domain")
+        if _rep_text(W["prob"]):
+            fs.add("repeated-operand@problem")
     return sorted(fs)
 
 
@@ -734,12 +747,12 @@ RELEVANT = [
     ("plan-validity-A-INVALID-bnds", ["bounded"]),
 ]
 RELEVANT_AI = [
-    ("action-cost-differs", ["repeated-operand:cost"]),
-    ("applicability-", ["repeated-operand:pre"]),
-    ("successor-differs", ["repeated-operand:eff"]),
-    ("goal-verdict-", ["repeated-operand:goal"]),
-    ("plan-validity-", ["repeated-operand:pre", "repeated-operand:eff", "repeated-operand:goal"]),
-    ("plan-metric-value-differs", ["repeated-operand:cost", "repeated-operand:metric", "repeated-operand:pre", "repeated-operand:eff"]),
+    ("action-cost-differs", ["repeated-operand@domain"]),
+    ("applicability-", ["repeated-operand@domain"]),
+    ("successor-differs", ["repeated-operand@domain"]),
+    ("goal-verdict-", ["repeated-operand@problem"]),
+    ("plan-validity-", ["repeated-operand@domain", "repeated-operand@problem"]),
+    ("plan-metric-value-differs", ["repeated-operand@domain", "repeated-operand@problem"]),
 ]
 
 
